@@ -284,7 +284,13 @@ def handleWts (j : Json) : R (List (String × Json)) := do
 
 def handle (j : Json) : R (List (String × Json)) := do
   let k ← strF j "k"
-  if k == "off" then handleOff j
+  -- a panic of the real code (e.g. the `unreachable!()` arm, an `unwrap` on a missing node) is a property failure
+  let panicked := match (fldD j "impl" Json.null).getObjVal? "panic" with
+    | .ok _ => true
+    | .error _ => false
+  if panicked then
+    return [("model", Json.null), ("oracle", Json.mkObj [("implementation_does_not_panic", Json.bool false)])]
+  else if k == "off" then handleOff j
   else if k == "net" then handleNet j
   else if k == "pop" then handlePop j
   else if k == "wts" then handleWts j
